@@ -19,6 +19,7 @@ type Term struct {
 	id     int
 	p1, p2 int    // extract hi/lo or extend amount
 	bigv   string // decimal value for Int constants (width == -1)
+	taint  bool   // depends on opaque (unmodelled) text
 }
 
 const IntSort = -1
@@ -113,6 +114,20 @@ func init() {
 }
 
 const smallConsts = 2048
+const opaqueName = "opaque!byte"
+
+// opaqueByte stands for one byte of text the engine does not model (most
+// diagnostic formatting). It may be stored, copied and concatenated; a branch,
+// assumption or assertion that depends on it aborts the run as unmodelled.
+func opaqueByte() *Term { return Var(opaqueName, 8) }
+
+func opaqueStr() *Str {
+	b := make([]*Term, 8)
+	for i := range b {
+		b[i] = opaqueByte()
+	}
+	return &Str{b: b}
+}
 
 var smallBV = map[int][]*Term{}
 var boolT, boolF *Term
@@ -134,6 +149,14 @@ func mkSlow(t *Term) *Term {
 	}
 	if e, ok := termTab.Load(k); ok {
 		return e.(*Term)
+	}
+	for _, a := range t.args {
+		if a.taint {
+			t.taint = true
+		}
+	}
+	if t.op == "var" && t.name == opaqueName {
+		t.taint = true
 	}
 	t.id = int(atomic.AddInt64(&termSeq, 1))
 	if e, loaded := termTab.LoadOrStore(k, t); loaded {
